@@ -282,10 +282,16 @@ func c08Build(c *vlib.Ctx, r *vlib.Rand, proto string, payload []byte, id int) *
 		nopt := r.Intn(11) // words of options
 		var opts []layers.IPv4Option
 		left := nopt * 4
-		for left > 0 {
+		// half of the packets leave 1..3 bytes of the last word to the serializer's alignment padding (which the
+		// checksum covers like any other header byte)
+		slack := 0
+		if nopt > 0 && r.Bool() {
+			slack = r.Range(1, 3)
+		}
+		for left > slack {
 			switch {
-			case left >= 3 && r.Bool():
-				l := r.Range(3, min(left, 11))
+			case left-slack >= 3 && r.Bool():
+				l := r.Range(3, min(left-slack, 11))
 				opts = append(opts, layers.IPv4Option{OptionType: uint8(r.Range(2, 255)), OptionLength: uint8(l), OptionData: r.Bytes(l - 2)})
 				left -= l
 			default:
